@@ -19,7 +19,8 @@
 (* ACTION PER STEP of it (wpc):                                            *)
 (*   top   the select on the context: cancellation seen or not             *)
 (*   get   the timed wait on the queue: a record (-> app) or expiry        *)
-(*   app   encode the record at the end of the buffer, count it, decide    *)
+(*   app   encode the record at the end of the buffer, count it (-> dec)   *)
+(*   dec   note the first time, decide whether the batch is due            *)
 (*   flush build the pack from the buffer bytes, gzip, HAND OVER (-> sent) *)
 (*   sent  the client returned: reset buffer, counter, first time          *)
 (*   drain cancellation seen: take what is still queued, flush, -> fin     *)
@@ -52,7 +53,7 @@
 (* flushed by the very append that made it so (MustFlush); flushing        *)
 (* earlier is never forbidden (the worker's timed wait may expire at any   *)
 (* moment; a waiting time <= 0 has no meaning as a threshold and is not    *)
-(* demanded).  The appending step therefore takes a decision `fl` that     *)
+(* demanded).  The deciding step therefore takes a decision `fl` that      *)
 (* must be TRUE when MustFlush holds and is free otherwise.                *)
 (***************************************************************************)
 EXTENDS Integers, Sequences, FiniteSets
@@ -215,17 +216,25 @@ AppendCall(r) ==
   /\ UNCHANGED <<mode, settings, configured, queue, refused, mem, blen, live, count, firstTime,
                  dactive, dq, drid, accD, emitted, stopped>>
 
-\* encode at the end of the buffer, count, note the first time, decide (fl: see the header)
-WAppend(fl) ==
+\* encode at the end of the buffer, count
+WAppend ==
   /\ wpc = "app"
-  /\ LET r  == wcur[1]
-         ft == IF firstTime = 0 THEN r.time ELSE firstTime
-     IN /\ MustFlush(blen + Size(r), ft, r) => fl
-        /\ mem' = [mem EXCEPT ![1] = WriteAt(@, blen, r.bytes)]
-        /\ blen' = blen + Size(r) /\ live' = Append(live, r) /\ count' = count + 1 /\ firstTime' = ft
+  /\ LET r == wcur[1]
+     IN /\ mem' = [mem EXCEPT ![1] = WriteAt(@, blen, r.bytes)]
+        /\ blen' = blen + Size(r) /\ live' = Append(live, r) /\ count' = count + 1
         /\ wcur' = <<>>
+        /\ wpc' = "dec"
+  /\ UNCHANGED <<queue, firstTime, wret, emitted>> /\ UNCHANGED wOnly
+
+\* note the first time, decide with the settings in force NOW (fl: see the header)
+WDecide(fl) ==
+  /\ wpc = "dec"
+  /\ LET r  == live[Len(live)]
+         ft == IF firstTime = 0 THEN r.time ELSE firstTime
+     IN /\ MustFlush(blen, ft, r) => fl
+        /\ firstTime' = ft
         /\ wpc' = IF fl THEN "flush" ELSE wret
-  /\ UNCHANGED <<queue, wret, emitted>> /\ UNCHANGED wOnly
+  /\ UNCHANGED <<queue, mem, blen, live, count, wcur, wret, emitted>> /\ UNCHANGED wOnly
 
 \* drained: nothing is queued any more
 Drained == wpc = "drain" /\ queue = <<>>
@@ -315,11 +324,11 @@ DefaultsInForce == ~configured => settings = Defaults
 HandedOverIsImmutable ==
   \A i \in 1..Len(emitted) : emitted[i].kept => Content(emitted[i]) = emitted[i].snap
 
-\* FlushWhenDue, as a property of steps: a buffer that grew in a step and is not on its way to the client
+\* FlushWhenDue, as a property of steps: a buffer that was appended to and is not sent on its way to the client
 \* has not reached a limit in force; nothing stays behind a stop or the end of a direct call
 \* (part of ExactlyOnceInOrder)
 FlushWhenDueStep ==
-  (count' = count + 1 /\ wpc' # "flush") => ~MustFlush(blen', firstTime', live'[Len(live')])
+  (wpc = "dec" /\ wpc' \notin {"dec", "flush"}) => ~MustFlush(blen, firstTime', live[Len(live)])
 
 Inv == ExactlyOnceInOrder /\ CountMatches /\ Decodable /\ ZipIff /\ DefaultsInForce /\ HandedOverIsImmutable
 =============================================================================
